@@ -75,15 +75,20 @@ class fast_tables(object):
             from pysmi.parser import dialect
             from pysmi.parser.smi import parserFactory
             d = core.new_root('ptab')
-            with core.unhooked():
-                parserFactory(**dialect.smiV1Relaxed)(tempdir=d)
-                path = os.path.join(d, 'mibFile', 'parsetab.py')
-                spec = importlib.util.spec_from_file_location('pysmi.parser.parsetab', path)
-                m = importlib.util.module_from_spec(spec)
-                spec.loader.exec_module(m)
+            m = None
+            try:
+                with core.unhooked():
+                    parserFactory(**dialect.smiV1Relaxed)(tempdir=d)
+                    path = os.path.join(d, 'mibFile', 'parsetab.py')
+                    spec = importlib.util.spec_from_file_location('pysmi.parser.parsetab', path)
+                    m = importlib.util.module_from_spec(spec)
+                    spec.loader.exec_module(m)
+            except Exception:   # noqa - the tree under test does not write its tables that way: take the ordinary path
+                m = None
             core.drop_root(d)
             _tabmod.append(m)
-        sys.modules['pysmi.parser.parsetab'] = _tabmod[0]
+        if _tabmod[0] is not None:
+            sys.modules['pysmi.parser.parsetab'] = _tabmod[0]
 
     def __exit__(self, *a):
         import sys
